@@ -2197,7 +2197,9 @@ def FBG(
         S = rho[len(rho) // 2 :]
 
         if apo_func:
-            p = apo_func(z)
+            # the step-size heuristic of solve_ivp may probe beyond the end of the grating;
+            # the profile is only defined for -1/2 <= z <= 1/2
+            p = apo_func(min(max(z, -0.5), 0.5))
             s = s * p
             k = k * p
 
